@@ -6,6 +6,14 @@ props = [json.loads(l) for l in open(os.path.join(V, "properties.jsonl"))]
 
 EVAL_NOTE = "trusted: TLC; the renderer's canonical layout and path->line map; H2 hook events (emitted after each VM state change in the single evaluator goroutine); program families are bounded (sizes in the evidence)"
 CHECKS = {
+ "C09": dict(
+   technique="ZnEval TLA+ machine (exception facet: IThrow/IUnwind/handler frames) model-checked by TLC over the raise-point x handler-placement x class-match matrix; TLC-emitted behaviours compared event-by-event with H2-hooked executions",
+   level="TLC runs the evaluator machine on every program of the matrix raise kind x depth 0..3 x site x handler placement per frame x handler ending (quick: ~1300 programs) plus constructor/handler-fault/receiver/recursion programs, checking the scope/frame invariants in every state; the real interpreter must execute the same statements at the same call depth (so stale or missing frames after a catch are visible at the next statement), display the same values (其内容, caller locals, results of repeated calls) and end with the same value or uncaught error at the same line and call chain.",
+   note=EVAL_NOTE, ref="5 C09"),
+ "C18": dict(
+   technique="ZnEval TLA+ machine (fault path + active frames) and ZnPos TLA+ position machine (physical line / marker column), model-checked by TLC; expected reports compared with DisplayError output of the real interpreter",
+   level="Runtime part: fault kind x call depth 0..3 x statement context x layout material before the fault (blank lines, //, /* */, 注：“…” blocks, multi-line literals) x LF/CRLF/CR x history (earlier handled exception, returned calls): the reported head line and call chain must equal the lines of the machine's active frames at the fault. Syntax part: every text <= 7 over {narrow, wide, LF, CR, bad char} with one offending character (36k vectors; quick replays all <= 5 and a seeded sample): reported line, marker offset in display columns and quoted line must equal ZnPos.",
+   note=EVAL_NOTE + "; display width table only exercised on the representatives (ASCII/Latin width 1, CJK/kana/hangul width 2)", ref="5 C18"),
  "C02": dict(
    technique="TLA+ evaluator state machine (ZnEval: Compile to instructions + frame/scope/heap machine) model-checked by TLC over exhaustive control-flow skeleton families; TLC-emitted behaviours (statement trace, display trace, result) compared event-by-event with H2-hooked executions of the real interpreter",
    level="Every control skeleton over {mark, if/elseif/else, while, iterate over list/dict with 0/1/2 names, break, continue, return} up to size 4 (5 thorough) with nesting<=3, plus a seeded sample of the next size, is run at top level and inside a method through the ZnEval machine by TLC (all invariants in every state); the real interpreter must execute exactly the same statements in the same order at the same call depth (H2 line events), display the same values and return the same result.",
